@@ -77,10 +77,9 @@ def multi_alphabet(mw):
     p0 = mw.par_names[0]
     p1 = mw.par_names[1]
     ops = [("m", ("fix", p0)), ("m", ("fix", p1)), ("m", ("rel", p0)), ("m", ("con", "simple")), ("m", ("con", "matrix-cov")), ("m", ("set", "P1")), ("m", ("fit",))]
-    if not mw.shared:  # (constraints of members are dropped by multi-fits with shared sources: open finding KF-C11-01)
-        ops.append(("f0", ("con", "simple")))
-        if len(mw.members) > 1 and mw.members[1].ftype in ("xy", "indexed"):
-            ops.append(("f1", ("con", "simple-rel")))
+    ops.append(("f0", ("con", "simple")))
+    if len(mw.members) > 1 and mw.members[1].ftype in ("xy", "indexed"):
+        ops.append(("f1", ("con", "simple-rel")))
     return ops
 
 
